@@ -4,6 +4,7 @@ import (
 	"fmt"
 	"go/token"
 	"go/types"
+	"os"
 	"sort"
 	"strings"
 
@@ -895,6 +896,7 @@ func analyseBoolNodeWith(p *load.Program, fn *ssa.Function, list *ssa.Parameter,
 		facts := init
 		flagFact := -1
 		feasible := true
+		contradiction := false
 		throughLoop := false
 		for _, b := range fp.blocks {
 			if loop != nil && b == loop.Header {
@@ -903,6 +905,9 @@ func analyseBoolNodeWith(p *load.Program, fn *ssa.Function, list *ssa.Parameter,
 		}
 		desc := ""
 		for _, ec := range fp.conds {
+			if contradiction {
+				break // contradictory facts: nothing further on this path is reachable
+			}
 			if loop != nil && ec.at == ind.Cond {
 				continue
 			}
@@ -912,7 +917,7 @@ func analyseBoolNodeWith(p *load.Program, fn *ssa.Function, list *ssa.Parameter,
 				rv := fp.resolveAt(ph, ec.at.Block())
 				if cst, isC := rv.(*ssa.Const); isC && cst.Value != nil {
 					if (cst.Value.String() == "true") != ec.taken {
-						feasible = false
+						feasible, contradiction = false, true
 					}
 					continue
 				}
@@ -963,7 +968,7 @@ func analyseBoolNodeWith(p *load.Program, fn *ssa.Function, list *ssa.Parameter,
 					s = shOne
 				}
 				if facts.shape[k] != shUnknown && facts.shape[k] != s {
-					feasible = false
+					feasible, contradiction = false, true
 				}
 				facts.shape[k] = s
 				desc += fmt.Sprintf(" len(%s)%s1", []string{"left", "right"}[k], map[bool]string{true: "==", false: "!="}[one])
@@ -982,6 +987,12 @@ func analyseBoolNodeWith(p *load.Program, fn *ssa.Function, list *ssa.Parameter,
 			if k, idx, neg, ok := ba.markerTest(ec.cond); ok {
 				if c, isC := cfgutilConst(idx); isC && c == 0 {
 					if facts.shape[k] != shOne {
+						if os.Getenv("VERIF_DEBUG_VBOOL") != "" {
+							for _, e2 := range fp.conds {
+								fmt.Fprintf(os.Stderr, "  cond %s = %s taken=%v at block %d\n", e2.cond.Name(), e2.cond.String(), e2.taken, e2.at.Block().Index)
+							}
+							fmt.Fprintf(os.Stderr, "  blocks %v desc=%s\n", fp.blocks, desc)
+						}
 						ba.fail("%s[0] is tested for the marker on a path where the list is not known to have length 1: the whole-match reading is applied to a per-member list (or an empty list is indexed)", []string{"left", "right"}[k])
 						feasible = false
 						continue
@@ -992,7 +1003,7 @@ func analyseBoolNodeWith(p *load.Program, fn *ssa.Function, list *ssa.Parameter,
 						v = 0
 					}
 					if facts.all[k] >= 0 && facts.all[k] != v {
-						feasible = false
+						feasible, contradiction = false, true
 					}
 					facts.all[k] = v
 					desc += fmt.Sprintf(" %s[0]%smarker", []string{"left", "right"}[k], map[bool]string{true: "==", false: "!="}[isMarker])
